@@ -127,6 +127,53 @@ CLAIMS["C10"] = dict(
          "cancellation (fc/mc events observed on the real tasks).",
     technique="Lean 4 invariant proofs over LTS models + trace validation against the real code")
 
+CLAIMS["C11"] = dict(
+    text="19 Lean theorems over all event lists of LTS models of Event and of Condition (the latter embeds the "
+         "C09 Lock model): Event.wait returns only in a state with the flag set, set() resolves every "
+         "waiter, the flag is monotone, released waiters can always be resumed; Condition: notify(n) sets "
+         "exactly the events of the first min(n,|waiters|) waiters, a waiter's event is set only by a "
+         "holder's notify/notify_all selecting it or by a cancelled notified waiter passing it on, wait "
+         "returns normally only to a notified task that owns the lock again, notification accounting "
+         "(issued = consumed directly + consumed after pass-on + dropped on an empty queue + pending), no "
+         "ghost waiters, refusals (RuntimeError, state unchanged) exactly for non-holders. Trace validation "
+         "against the real code incl. both orders of notify/cancel inside one loop cycle, and a queue-automaton "
+         "oracle.",
+    design="5/C11",
+    note=BASE_NOTE + "Scoped to cancel-scope and deadline cancellation: a native Task.cancel() landing in "
+         "wait()'s shielded re-acquire is outside the claim (machine-checked witness "
+         "C11_native_cancel_reacquire_witness; DESIGN section 4). Not covered: a Condition sharing an "
+         "externally used Lock, wait_for.",
+    technique="Lean 4 invariant proofs over LTS models + trace validation against the real code")
+CLAIMS["C12"] = dict(
+    text="16 Lean theorems over all event lists of the memory-object-stream LTS (any buffer size, clones, "
+         "blocking and nowait calls, cancellations): every offered item is in exactly one of sender's slot, "
+         "buffer, receiver's slot, delivered, rejected, lost; delivered items are distinct and were offered; "
+         "an accepted send's item is inside the stream or delivered; FIFO (entered = handed ++ buffer), "
+         "blocked senders/receivers served from the head skipping only receivers with a pending "
+         "cancellation; |buffer| <= max_buffer_size; a cancelled receive changes only its own queue entry; "
+         "under scope/deadline cancellation nothing is ever lost (C12_scope_cancel_never_loses) and an "
+         "interrupted send is delivered at most once. One clause (per-sender sublist order) is "
+         "C12_order_partial and is decided by the oracle on every run.",
+    design="5/C12",
+    note=BASE_NOTE + "The no-loss claim is proved over runs without a native Task.cancel() landing between "
+         "hand-over and wake-up; C12_native_cancel_witness shows the restriction is necessary (DESIGN "
+         "section 4). has_pending_cancellation's scope clause is an environment input observed on the real "
+         "task.",
+    technique="Lean 4 invariant proofs over an LTS + trace validation against the real code")
+CLAIMS["C13"] = dict(
+    text="10 Lean theorems over all reachable states of the same LTS: open_send/open_receive counters equal "
+         "the number of open clones, EndOfStream only with no open send clone, empty buffer and no pending "
+         "sender item, BrokenResourceError only with no open receive clone, ClosedResourceError exactly for "
+         "operations on a closed handle, closing the last clone of one side sets the events of every task "
+         "blocked on the other side (receivers after the remaining items were handed out in order), so no "
+         "task waits on an un-set event once the peer side is fully closed and its wake-up segment ends the "
+         "operation. Trace validation and an oracle tracking the true open/closed state.",
+    design="5/C13",
+    note=BASE_NOTE + "'Nobody left blocked' is a state invariant plus an always-enabled wake-up segment; the "
+         "event loop is trusted to run the woken task (deadlock detection of the virtual-time loop checks it "
+         "on every generated history).",
+    technique="Lean 4 invariant proofs over an LTS + trace validation against the real code")
+
 CLAIMS["C04"].update(
     category="proof",
     text="24 Lean theorems, for ALL states of the kernel model (not only reachable ones): "
